@@ -150,6 +150,19 @@ def check(run):
     run.check(not other and not mq, 'R2', 'stop-effect', 'sim::simulation::stop', f.loc(),
               'stop() also touches %s: stopping or draining the underlying message queue leaves handlers that are already ready un-run while run() still jumps the clock to the next timer' % ([a.field.split('::')[-1] for a in other] + [q.render(f, c) for c in mq]),
               'stop() only sets the flag (ready handlers still run before run() returns)')
+    # run() honours the flag at the event boundary: a stopped simulation does nothing, and a stop() called by a handler
+    # leaves the clock and the timers alone (otherwise the clock has already jumped when run() returns, and what is armed
+    # during the pause for an instant in between completes after the timer the jump went to: reordered across stop/restart)
+    run.clause('stop() takes effect at the event boundary: with the flag set run() reaches neither the poll from its entry nor the clock advance / the firing of timers from the poll')
+    stopped = lambda atom: {'m_stopped': True}.get(q.render(rn, q.strip_casts(atom)).replace('this->', ''))
+    ffs_ = [c for c in q.flat_calls(rn, lambda g_, c: q.callee_name(c) == FF)]
+    fires_ = [c for c in q.flat_calls(rn, lambda g_, c: (q.callee_name(c) or '').endswith('high_resolution_timer::fire'))]
+    adv = [x.anchor for x in ffs_ + fires_]
+    run.check(bool(polls) and not any(q.reachable_under(rn, None, [p_], stopped) for p_ in polls), 'R5', 'stopped-run-does-nothing', 'sim::simulation::run', rn.loc(),
+              'run() called on a stopped simulation (stop(); run(); without restart()) still polls the ready handlers - and goes on to jump the clock and fire a timer: it must return 0 with nothing executed and the clock unchanged', 'the poll is unreachable from the entry while m_stopped')
+    run.check(bool(adv) and bool(polls) and not any(q.reachable_under(rn, p_, adv, stopped) for p_ in polls), 'R5', 'stop-at-event-boundary', 'sim::simulation::run', rn.loc(adv[0]) if adv else rn.loc(),
+              'after the poll in which a handler called stop(), run() still advances the clock to the next timer and fires it before it looks at the flag: run() returns with the clock at that timer\'s expiry and its completion queued - a timer armed during the pause for an earlier instant completes after it, and re-arming the fired timer no longer cancels its wait',
+              'clock advance and timer firing are unreachable from the poll while m_stopped')
     # restart must not touch the clock or the queues
     f = fx.fn1('sim::simulation::restart')
     other = [a for a in q.field_accesses(f) if a.is_write and a.field != 'sim::simulation::m_stopped']
